@@ -4,6 +4,7 @@ import (
 	"bytes"
 	"context"
 	"encoding/json"
+	"fmt"
 	"io"
 	"os"
 	"path/filepath"
@@ -155,6 +156,11 @@ func commitFileArtifact(
 
 	cksum, err := ch.commitBytes(srcReader, moveFile)
 	if err != nil {
+		// commitBytes may already have moved the workspace file into the
+		// cache; never leave the workspace without its entry.
+		if moveFile != "" && cksum != "" {
+			ch.restoreWorkspaceFile(cksum, workPath)
+		}
 		return err
 	}
 
@@ -162,16 +168,68 @@ func commitFileArtifact(
 	// There's no need to call Checkout if using CopyStrategy; the original
 	// file still exists.
 	if strat == strategy.LinkStrategy {
-		// If we can't rename the file then we copied it, and we need to remove
-		// it before linking.
+		// If we can't rename the file then we copied it, and the copy in the
+		// workspace must make way for the link. Replace it in one atomic
+		// step so the workspace entry never disappears.
 		if !canRenameFile {
-			if err := os.Remove(workPath); err != nil {
-				return err
-			}
+			return ch.replaceWithLink(cksum, workPath)
 		}
 		// Purposefully avoid cache.Checkout here as we don't need or want the
 		// overhead of managing a progress bar.
-		return checkoutFile(ch, workspaceDir, *art, strat, nil)
+		if err := checkoutFile(ch, workspaceDir, *art, strat, nil); err != nil {
+			// The file is in the cache but could not be linked; put it back
+			// so that a failed commit can simply be retried.
+			ch.restoreWorkspaceFile(cksum, workPath)
+			return err
+		}
+	}
+	return nil
+}
+
+// restoreWorkspaceFile re-creates, as a regular file, a workspace file that has
+// been moved into the cache by a commit that subsequently failed. It is
+// a best-effort operation used on error paths only.
+func (ch LocalCache) restoreWorkspaceFile(cksum, workPath string) {
+	if _, err := os.Lstat(workPath); !os.IsNotExist(err) {
+		return
+	}
+	cachePath, err := ch.PathForChecksum(cksum)
+	if err != nil {
+		return
+	}
+	src, err := os.Open(filepath.Join(ch.dir, cachePath))
+	if err != nil {
+		return
+	}
+	defer src.Close()
+	dst, err := os.OpenFile(workPath, os.O_WRONLY|os.O_CREATE|os.O_EXCL, 0o644)
+	if err != nil {
+		return
+	}
+	defer dst.Close()
+	if _, err := io.Copy(dst, src); err != nil {
+		os.Remove(workPath)
+	}
+}
+
+// replaceWithLink atomically replaces the workspace file at workPath with
+// a link to the cache object with the given checksum.
+func (ch LocalCache) replaceWithLink(cksum, workPath string) error {
+	cachePath, err := ch.PathForChecksum(cksum)
+	if err != nil {
+		return err
+	}
+	linkTarget, err := filepath.Rel(filepath.Dir(workPath), filepath.Join(ch.dir, cachePath))
+	if err != nil {
+		return err
+	}
+	tempLink := fmt.Sprintf("%s.dud-link-%d", workPath, os.Getpid())
+	if err := os.Symlink(linkTarget, tempLink); err != nil {
+		return err
+	}
+	if err := os.Rename(tempLink, workPath); err != nil {
+		os.Remove(tempLink)
+		return err
 	}
 	return nil
 }
@@ -215,6 +273,9 @@ func (ch LocalCache) commitBytes(reader io.Reader, moveFile string) (string, err
 			return "", err
 		}
 		defer tempFile.Close()
+		// Don't leave the temporary file behind on failure. (After
+		// a successful rename it is gone already.)
+		defer os.Remove(tempFile.Name())
 		reader = io.TeeReader(reader, tempFile)
 		moveFile = tempFile.Name()
 	}
@@ -242,8 +303,10 @@ func (ch LocalCache) commitBytes(reader io.Reader, moveFile string) (string, err
 	if err = os.Rename(moveFile, cachePath); err != nil {
 		return "", err
 	}
+	// From here on the bytes live in the cache; report the checksum even on
+	// failure so the caller can undo a move out of the workspace.
 	if err := os.Chmod(cachePath, cacheFilePerms); err != nil {
-		return "", err
+		return cksum, err
 	}
 	return cksum, nil
 }
